@@ -9,10 +9,9 @@ CONSTANTS
   OwnCuts = {0, 1, 1000}
   ExpireCuts = {1}
   MaxForeign = 2
-  MaxSteps = 6
+  MaxSteps = 5
   FeeBug = TRUE
 INVARIANTS TypeOK ReapExecutable Distinct NotCommitted NoSharedKeyImage GapFreeFromCommittedNonce CoveredByBalance WellSorted CacheIsPool NoStrandedExecutable CheckIsLedgerPlusGood KeyCacheIsUtxoq CommittedRemoved
 PROPERTIES RejectedLeavesCheckStateUnchanged RejectedLeavesPoolUnchanged
-ACTION_CONSTRAINT Edge
 VIEW View
 CHECK_DEADLOCK FALSE
